@@ -56,11 +56,11 @@ manifest = {
         "name": "kafcheck",
         "path": "checker/cmd/kafcheck",
         "serves_properties": [c["property_id"] for c in checks],
-        "kind_free_text": "repository-specific static analyser: go/packages type-checked syntax + go/ssa; CFG path search with guard atoms (must-pass), lockset dataflow, who-may-write tables, value provenance, decoded-length taint, constant-table agreement, demand-driven context-sensitive points-to (may-write) analysis. Never executes repository code.",
+        "kind_free_text": "repository-specific static analyser: go/packages type-checked syntax + go/ssa; CFG path search with guard atoms (must-pass), lockset dataflow, who-may-write tables, value provenance, decoded-length taint, constant-table agreement, demand-driven context-sensitive points-to (may-write) analysis; before any rule runs, functions that did not exist at the pinned commit are folded into their callers at SSA level (inliner + jump threading added to the vendored go/ssa; anchors/known_funcs.txt) so that rules anchored on a function see through helpers split out of it. Never executes repository code.",
     }],
     "checks": checks,
     "not_applicable": na,
-    "notes": "All checks are static: bin/kafcheck loads /repo's current working tree with go/packages on every run (go1.26.8, offline), builds SSA and evaluates the rule instances of the property; exit 0 = every obligation discharged (KNOWN-FINDING lines allowed), exit 1 + VIOLATION line = a rule is violated by a construct not in known_findings.json, exit 2 = undecided/unresolved anchor (never expected on the unchanged tree). thorough additionally applies the sensitivity controls in controls/*.json in memory (packages overlay) and requires the named rule to fire on each.",
+    "notes": "All checks are static: bin/kafcheck loads /repo's current working tree with go/packages on every run (go1.26.8, offline), builds SSA and evaluates the rule instances of the property; exit 0 = every obligation discharged (KNOWN-FINDING lines allowed), exit 1 + VIOLATION line = a rule is violated by a construct not in known_findings.json, exit 2 = undecided/unresolved anchor (never expected on the unchanged tree). thorough additionally replays, in memory (packages overlay), the sensitivity controls in controls/*.json and the 133 independently seeded breaking changes in seeded/ (the named rule must fire on each) and the 43 behaviour- or property-preserving patches in refactors/ (the check must stay quiet on each); a missed control or a false alarm on a negative control fails the run.",
 }
 json.dump(manifest, open(os.path.join(V, "MANIFEST.json"), "w"), indent=1)
 print(f"MANIFEST.json: {len(checks)} checks, {len(na)} not_applicable")
